@@ -120,13 +120,53 @@ fn unhex(h: &str) -> Vec<u8> {
 pub fn run(ctx: &mut Ctx) {
     let timing_only = ctx.suite == "c14";
     let n = if ctx.thorough() { 40_000 } else { 3_000 };
-    for i in 0..n {
+    // directed shapes first: one direction ends at once (a half-closed tunnel), the other keeps delivering chunks
+    // with gaps below the idle timeout for several timeouts in a row, into a sink that takes everything, a byte at
+    // a time, or is slow to become writable - such a tunnel is active and must not be torn down
+    let mut directed: Vec<(u64, (SrcScript, SinkScript), (SrcScript, SinkScript))> = vec![];
+    for t in [100u64, 1000, 40] {
+        for gap in [t / 2, 3 * t / 4, t - 1] {
+            for nchunks in [3usize, 6] {
+                for sink_kind in 0..3 {
+                    for side in 0..2 {
+                        let quiet_src = SrcScript { events: vec![(0, SrcEv::Eof)], consume_err_at: None };
+                        let busy_src = SrcScript {
+                            events: (0..nchunks).map(|k| (gap, SrcEv::Chunk(vec![k as u8 + 1, 0xee, k as u8 + 2]))).chain(std::iter::once((gap, SrcEv::Eof))).collect(),
+                            consume_err_at: None,
+                        };
+                        let plain_sink = SinkScript { quotas: vec![], writable_delays: vec![], write_err_at: None, writable_err_at: None, eof_err: false, flush_err: false, flush_delay: 0 };
+                        let busy_sink = match sink_kind {
+                            0 => plain_sink.clone(),
+                            1 => SinkScript { quotas: vec![1; 40], ..plain_sink.clone() },
+                            _ => SinkScript { quotas: vec![1, 1, 100, 1], writable_delays: vec![t / 4, t / 4, t / 4, t / 4], ..plain_sink.clone() },
+                        };
+                        // the busy direction's sink is the *other* side's sink
+                        let (l, r) = if side == 0 { ((quiet_src, plain_sink), (busy_src, busy_sink)) } else { ((busy_src, busy_sink), (quiet_src, plain_sink)) };
+                        directed.push((t, l, r));
+                    }
+                }
+            }
+        }
+    }
+    if !ctx.thorough() {
+        directed = directed.into_iter().enumerate().filter(|(k, _)| k % 3 == 0).map(|(_, d)| d).collect();
+    }
+    let n_directed = directed.len();
+    let mut directed = directed.into_iter();
+    for i in 0..n + n_directed {
         let t: u64 = *ctx.rng.pick(&[100u64, 1000, 40]);
         let timing = timing_only || i % 3 == 0;
         let mut lt = vec![];
         let mut rt = vec![];
         let left = (gen_src(ctx, t, &mut lt, timing), gen_sink(ctx, t, timing));
         let right = (gen_src(ctx, t, &mut rt, timing), gen_sink(ctx, t, timing));
+        let (t, left, right) = match directed.next() {
+            Some(d) => {
+                ctx.stat("directed_half_closed_active");
+                d
+            }
+            None => (t, left, right),
+        };
         let desc = format!("T={} left={:?} right={:?}", t, left, right);
         let (l2, r2) = (left.clone(), right.clone());
         let rt_ = tokio::runtime::Builder::new_current_thread().enable_all().start_paused(true).build().unwrap();
